@@ -1,7 +1,7 @@
 # pid -> (pid, category, text, level_note, technique, design_ref)
 TABLE = {
  'C08': ('C08', 'exploration',
-   'Seeded simulation of the one clause of C08 that meets a seam: an unreadable \\LTinput file. The real filter (library call, python -m yalafi CLI, and the shell) runs against an in-memory file system that injects ENOENT/EACCES/EISDIR/EIO at open, EIO after k characters, undecodable bytes and vanishing files; the oracle checks diagnostic line/column, complete mark, mark position in the map, survival of following text, and that the fault-free twin has neither mark nor diagnostic. Sampling, not proof.',
+   'Seeded simulation of the one clause of C08 that meets a seam: an unreadable \\LTinput file. The real filter (library call, python -m yalafi CLI with the text as file or on stdin, and the shell) runs against an in-memory file system that injects ENOENT/EACCES/EISDIR/EIO at open, EIO after k characters, undecodable bytes and vanishing files; the oracle checks diagnostic line/column, complete mark, mark position in the map, survival of following text, and that the fault-free twin has neither mark nor diagnostic. Sampling, not proof.',
    'Only the "unreadable \\LTinput file" clause is decided; the seven syntactic problem kinds are pure functions of the input string and are not addressed by this technique. Trusts the SimFS stub (builtins.open wrapper) to represent real OS failures.',
    'deterministic simulation with file-system fault injection', 'DESIGN.md §4 C08'),
  'C14': ('C14', 'exploration',
@@ -13,7 +13,7 @@ TABLE = {
    'Faults are applied to the answer of a well-framed transport; a transport that delivers no answer at all is outside the property. Base scenarios are seeded samples. Trusts the fake peer stub.',
    'deterministic simulation with enumerated fault injection on the peer answer', 'DESIGN.md §4 C15'),
  'C17': ('C17', 'exploration',
-   'Seeded, pair-biased histories of tex2txt() calls in one interpreter and of HTTP requests (with duplication, reordering and malformed requests) to one --as-server process, each operation compared exactly with the same operation executed alone in a pristine process (fresh-process reference; cross-validated against a truly fresh interpreter on a sample). Sampling over histories, not proof.',
+   'Seeded, pair-biased histories (a catalogue of state carriers, plus pairs of documents sharing a macro name drawn from the 437 LaTeX inputs of the repository\'s own tests) of tex2txt() calls in one interpreter and of HTTP requests (with duplication, reordering and malformed requests) to one --as-server process, each operation compared exactly with the same operation executed alone in a pristine process (fresh-process reference; cross-validated against a truly fresh interpreter on a sample). Sampling over histories, not proof.',
    'Reference = forked pristine child of a zygote that only imported the modules; equivalence to a fresh interpreter is sampled, not proved. LT peer is available throughout a history.',
    'deterministic simulation over operation histories with fresh-process reference oracle', 'DESIGN.md §4 C17'),
  'C18': ('C18', 'exploration',
